@@ -16,7 +16,8 @@ let eval case impl =
   match split_on ' ' case with
   | [kind; lo; segs; ms] ->
     let leftover = bytes_of_hex lo in
-    let segl = if segs = "-" then [] else List.map bytes_of_hex (split_on ',' segs) in
+    let unbang t = if String.length t > 0 && t.[0] = '!' then String.sub t 1 (String.length t - 1) else t in
+    let segl = if segs = "-" then [] else List.map (fun t -> bytes_of_hex (unbang t)) (split_on ',' segs) in
     let mode = ms.[0] in
     let sizes = List.map n_of_int (parse_sizes (String.sub ms 1 (String.length ms - 1))) in
     let b0 =
@@ -26,7 +27,8 @@ let eval case impl =
     (* mode M (read and fill_buf/consume taking turns on one reader) is judged by the spec alone: the model has the two
        loops separately *)
     let model =
-      if mode = 'M' then impl else begin
+      (* modes V / L (interrupted reads under callers that retry): judged by the spec alone as well - the model's stream never fails *)
+      if mode = 'M' || mode = 'V' || mode = 'L' then impl else begin
         (* Read loop as in Model.read_all, except that a zero-sized read (an empty caller buffer) is not an end report *)
         let rec rloop b szs acc = match szs with
           | [] -> (acc, "MORE")
@@ -54,7 +56,7 @@ let eval case impl =
          | M.Valid (p, _) ->
            (* exactly the payload then end-of-body; MORE only when the read sizes ran out (then a prefix) *)
            (ist = "EOF" && iout = p) || (ist = "MORE" && is_prefix_of iout p && List.length (List.filter (fun k -> k <> M.N0) sizes) <= List.length p)
-         | M.Invalid _ -> ist <> "EOF" && ist <> "PANIC"       (* never a short or altered body reported as complete *)
+         | M.Invalid _ -> ist = "ERR" || ist = "MORE"          (* never a short or altered body reported as complete *)
          | M.Unspecified -> ist <> "PANIC")
       | Some _, _ -> false in
     (model, if ok then [] else [("C06", "-")])
